@@ -262,6 +262,10 @@ func nonIntLits() []jLit {
 		num("frac", "1.0", true, 1), num("frac", "1.5", false, 0), num("frac", "-0.0", true, 0), num("frac", "300.0", true, 300),
 		num("exp", "1e2", true, 100), num("exp", "1E-2", false, 0), num("exp", "3e2", true, 300), num("exp", "1e400", false, 0),
 		num("exp", "2.5e1", true, 25), num("frac", "0.1", false, 0),
+		// whole numbers beyond 2^53 spelled with a fraction / exponent: a float64 detour cannot hold them
+		num("frac", "9007199254740993.0", true, 9007199254740993), num("exp", "1234567890123456789e0", true, 1234567890123456789),
+		num("exp", "9.223372036854775807e18", true, 9223372036854775807), num("frac", "-9007199254740993.0", true, -9007199254740993),
+		num("exp", "9223372036854775807e0", true, 9223372036854775807), num("frac", "4294967295.0", true, 4294967295),
 		{Cls: "arr", N: z, Text: "[]"}, {Cls: "arr", N: z, Text: "[1]"}, {Cls: "arr", N: z, Text: `["a"]`},
 		{Cls: "obj", N: z, Text: "{}"}, {Cls: "obj", N: z, Text: `{"a":1}`},
 		str("str", "abc"), str("str", "a b"), str("str", "\x00<&>\"\\é漢\U0001F600"), str("str", "12"), str("str", "true"),
